@@ -292,7 +292,7 @@ func c20NoHealthyServer(c *Ctx, name string, b vsched.Bounds) Sched {
 				}
 				return nil
 			}
-			return bodies, check, func() string { return fmt.Sprint(res[0].Status, res[1].Status, res[2].Status) }
+			return bodies, check, func() string { return resSummary(res, false) }
 		},
 	}
 }
